@@ -64,6 +64,14 @@ def run_case(cls, params, rec):
 		model.double()
 		rec.count("prior_float32_calls")
 	plain = copy.deepcopy(model)
+	if params.get("mixed_mode"):
+		# root in eval mode, mode-dependent layers switched back to train
+		# mode (as after swapping in a fresh layer or an MC-dropout setup):
+		# deep_lift_shap has to evaluate the network in eval mode
+		for m_ in model.modules():
+			if isinstance(m_, torch.nn.RReLU):
+				m_.train()
+				rec.count("rrelu_layers_left_in_train_mode")
 	target = params["target"]
 	desc = {"arch": dls.describe(spec), "A": A, "L": L, "n": n,
 		"n_shuffles": ns, "batch_size": params["batch_size"],
@@ -212,7 +220,7 @@ def gen_case(seed, k):
 		"iseed": r.randrange(10 ** 6),
 		"refkind": r.choice(["onehot", "onehot", "onehot", "zeros",
 		"uniform", "soft", "onehotN"]),
-		"prior_override_call": k % 4 == 1}
+		"prior_override_call": k % 4 == 1, "mixed_mode": True}
 
 
 def plan(tier, seed):
